@@ -117,6 +117,8 @@ func (s *state) clone() *state {
 	for k, v := range s.m {
 		if b, ok := v.(*mon.Box); ok {
 			n.m[k] = b.Clone()
+		} else if l, ok := v.(mon.IntList); ok {
+			n.m[k] = l.Clone()
 		} else {
 			n.m[k] = v
 		}
